@@ -25,7 +25,7 @@
  * Two programs are built from this file:
  *   dec_fuzz      (no DEC_FUZZ_STANDALONE) linked with -fsanitize=fuzzer: libFuzzer target
  *   dec_fuzz_sa   (-DDEC_FUZZ_STANDALONE): replays inputs without libFuzzer:
- *        dec_fuzz_sa [--slack n] [--cov file] [--from i] [--to j] [--stop-on-asan] <file | dir | x.pack> ...
+ *        dec_fuzz_sa [--slack n] [--cov file] [--from i] [--to j] [--stop-on-asan] [--alarm s] <file | dir | x.pack> ...
  *     a .pack file is a list of [len: u32 LE][bytes] inputs (written by gen/c10_mutate.py); --from/--to select an
  *     index range of the pack.  For every input it prints
  *        B <idx> <name> <size>                         before the session starts (flushed)
@@ -35,13 +35,15 @@
  *     invalid READ (asan=1; asan=2 means reads only), because the heap may be corrupt afterwards (the driver
  *     resumes behind it in a fresh process).
  *     --cov writes one byte per inline-8bit coverage counter of the instrumented library (0/1) at exit.
- *   exit status: 0 all inputs ran; 77 stopped after an ASan report; 2 usage / IO error.
+ *     --alarm n: in-process watchdog per input (SIGALRM): prints "T <idx>" and exits with status 78.
+ *   exit status: 0 all inputs ran; 77 stopped after an ASan report; 78 an input stalled; 2 usage / IO error.
  */
 #include <stdint.h>
 #include <stdio.h>
 #include <stdlib.h>
 #include <string.h>
 #include <dirent.h>
+#include <signal.h>
 #include <sys/stat.h>
 #include <unistd.h>
 #include "EbSvtAv1Dec.h"
@@ -245,8 +247,16 @@ static uint8_t *df_read_file(const char *path, size_t *n) {
     return b;
 }
 
-static int  g_stop_on_asan;
+static int  g_stop_on_asan, g_alarm;
 static long g_idx;
+static void df_on_alarm(int sig) {
+    /* in-process watchdog (like libFuzzer -timeout): only marks the input as stalled; the driver decides */
+    char buf[64];
+    int  n = snprintf(buf, sizeof(buf), "T %ld\n", g_idx);
+    (void)sig;
+    if (n > 0 && write(1, buf, (size_t)n) < 0) {}
+    _exit(78);
+}
 /* returns 1 when the process must stop (ASan report with --stop-on-asan) */
 static int df_run_named(const char *name, const uint8_t *d, size_t n) {
     printf("B %ld %s %zu\n", g_idx, name, n);
@@ -257,7 +267,11 @@ static int df_run_named(const char *name, const uint8_t *d, size_t n) {
     uint8_t *cp = (uint8_t *)malloc(n ? n : 1);
     if (n)
         memcpy(cp, d, n);
+    if (g_alarm)
+        alarm((unsigned)g_alarm);
     df_session(cp, n);
+    if (g_alarm)
+        alarm(0);
     free(cp);
     /* asan: 0 none, 2 only invalid READs (state not corrupted), 1 anything else (write, free, ...) */
     unsigned asan = g_asan_reports == 0 ? 0 : (g_asan_reads >= g_asan_reports ? 2 : 1);
@@ -285,6 +299,8 @@ int main(int argc, char **argv) {
             to = atol(argv[++i]);
         else if (!strcmp(argv[i], "--stop-on-asan"))
             g_stop_on_asan = 1;
+        else if (!strcmp(argv[i], "--alarm") && i + 1 < argc)
+            g_alarm = atoi(argv[++i]);
         else {
             fprintf(stderr, "dec_fuzz_sa: unknown option %s\n", argv[i]);
             return 2;
@@ -292,6 +308,8 @@ int main(int argc, char **argv) {
     }
     if (g_slack > 64 || g_slack < -1)
         g_slack = 0;
+    if (g_alarm > 0)
+        signal(SIGALRM, df_on_alarm);
     if (i >= argc) {
         fprintf(stderr, "usage: dec_fuzz_sa [--slack n] [--cov f] [--from i] [--to j] [--stop-on-asan] file|dir|x.pack ...\n");
         return 2;
